@@ -242,6 +242,9 @@ const CONTEXTS: &[(&str, &str)] = &[
     ("\x1b[", "2Cz"),
     ("\x1b", "z[1mq"),
     ("\x1b(", "0q"),
+    // a string continued by a LONG second call (the character sits where the cut falls)
+    ("\x1b]0;tttttttttttttttttttttttt", "uuuuuuuuuuuuuuuuuuuuuuuuuuuuuuuu\x07vw"),
+    ("\u{90}1$qpppppppppppppppppppppp", "rrrrrrrrrrrrrrrrrrrrrrrrrrrrrrrr\u{9c}yz"),
 ];
 
 fn sweep_scalars(tier: Tier) -> Vec<char> {
